@@ -111,3 +111,32 @@ pub fn unicode(max: usize) -> BoxedStrategy<String> {
     .prop_map(|v| v.into_iter().collect())
     .boxed()
 }
+
+
+/// Identifier shapes seen in real version strings: `git describe` suffixes, commit hashes, CI
+/// build numbers, dates and timestamps, Maven / npm / Python habits, platform tags.  Every
+/// value is one SemVer identifier ([0-9A-Za-z-]+); callers lower-case it for PEP 440 locals.
+pub fn realistic_ident() -> BoxedStrategy<String> {
+    let hex = || prop_oneof![3 => "[0-9a-f]{7}", 2 => "[0-9a-f]{8,12}", 1 => "[0-9a-f]{40}", 1 => "[0-9a-f]{6}", 1 => "[0-9A-F]{7,10}"];
+    let n = || prop_oneof![3 => (0u32..30).prop_map(|x| x.to_string()), 1 => (0u32..100000).prop_map(|x| x.to_string()), 1 => super::pick(&["0", "00", "01", "007"]).prop_map(String::from)];
+    let date = || (1990u32..2100, 1u32..13, 1u32..29).prop_map(|(y, m, d)| format!("{y}{m:02}{d:02}"));
+    let time = || (0u32..24, 0u32..60, 0u32..60).prop_map(|(h, m, s)| format!("{h:02}{m:02}{s:02}"));
+    prop_oneof![
+        4 => (n(), hex()).prop_map(|(n, h)| format!("{n}-g{h}")),
+        2 => hex().prop_map(|h| format!("g{h}")),
+        2 => hex(),
+        1 => hex().prop_map(|h| format!("sha-{h}")),
+        2 => super::pick(&["SNAPSHOT", "snapshot", "final", "Final", "RELEASE", "GA", "nightly", "canary", "next", "latest", "insiders", "exp", "hotfix", "patch", "M1", "CR2", "SP1", "x86-64", "amd64", "linux-gnu", "py3-none-any", "cp311", "win32", "dirty", "modified", "local"]).prop_map(String::from),
+        2 => date(),
+        1 => (date(), time()).prop_map(|(d, t)| format!("{d}{t}")),
+        1 => (date(), time()).prop_map(|(d, t)| format!("{d}T{t}Z")),
+        1 => (date(), time()).prop_map(|(d, t)| format!("{d}-{t}")),
+        2 => (super::pick(&["rc", "RC", "beta", "alpha", "a", "b", "c", "pre", "preview", "dev", "post", "rev", "r", "p", "build", "b", "ci", "pr", "m"]), super::pick(&["", "-", "--"]), n()).prop_map(|(l, s, n)| format!("{l}{s}{n}")),
+        1 => (n(), n()).prop_map(|(a, b)| format!("{a}-{b}")),
+        1 => (n(), super::pick(&["a", "b", "rc", "dev", "post", "x", "e5", "E5", "e", "f"]), n()).prop_map(|(a, l, b)| format!("{a}{l}{b}")),
+        1 => "0{1,3}[1-9][0-9]{19,26}",
+        1 => "[1-9][0-9]{19,26}",
+        1 => super::pick(&["-", "--", "-1", "1-", "-0", "0-", "-a", "a-", "g", "g-", "-g1234567"]).prop_map(String::from),
+    ]
+    .boxed()
+}
